@@ -2747,7 +2747,11 @@ def orbital_equinox2equinox(epoch0, epoch, i0, arg0, lon0):
     else:
         a = sin(i0r) * sin(lon0r - pir)
         b = -sin(etar) * cos(i0r) + cos(etar) * sin(i0r) * cos(lon0r - pir)
-        i1 = asin(sqrt(a*a + b*b))
+        # The sine alone cannot tell direct from retrograde orbits: Use also
+        # the cosine of the new inclination
+        c = (cos(i0r) * cos(etar)
+             + sin(i0r) * sin(etar) * cos(lon0r - pir))
+        i1 = atan2(sqrt(a*a + b*b), c)
         i1 = Angle(i1, radians=True)
         omegapsi = atan2(a, b)
         omegapsi = Angle(omegapsi, radians=True)
